@@ -4,6 +4,7 @@
 package main
 
 import (
+	"encoding/hex"
 	"fmt"
 	"go/ast"
 	"go/parser"
@@ -11,6 +12,7 @@ import (
 	"os"
 	"path/filepath"
 	"sort"
+	"strconv"
 	"strings"
 )
 
@@ -79,6 +81,124 @@ func constNames(files []*ast.File, pred func(string) bool) []string {
 	return names
 }
 
+// mineLiterals collects integer literals and short byte-array composite literals
+// from the non-test sources of the tree under test. They feed the generators as
+// a fuzzing dictionary: special values the code compares against (spec-defined
+// "deleted TAI" codes, protocol identifiers, magic octets) are then hit by
+// construction instead of with probability 2^-24.
+func mineLiterals(repo string, dirs []string) (ints []uint64, seqs [][]byte, strs []string) {
+	seenI := map[uint64]bool{}
+	seenS := map[string]bool{}
+	seenT := map[string]bool{}
+	addSeq := func(b []byte) {
+		if len(b) >= 2 && len(b) <= 16 && !seenS[string(b)] && len(seqs) < 3000 {
+			seenS[string(b)] = true
+			seqs = append(seqs, append([]byte(nil), b...))
+		}
+	}
+	lit := func(e ast.Expr) (uint64, bool) {
+		for {
+			p, ok := e.(*ast.ParenExpr)
+			if !ok {
+				break
+			}
+			e = p.X
+		}
+		if c, ok := e.(*ast.CallExpr); ok && len(c.Args) == 1 { // uint8(0xff)
+			e = c.Args[0]
+		}
+		bl, ok := e.(*ast.BasicLit)
+		if !ok || bl.Kind != token.INT {
+			return 0, false
+		}
+		v, err := strconv.ParseUint(strings.ReplaceAll(bl.Value, "_", ""), 0, 64)
+		return v, err == nil
+	}
+	// the literals an "a == x && b == y && ..." chain compares against, in source order
+	var chain func(e ast.Expr, out *[]byte)
+	chain = func(e ast.Expr, out *[]byte) {
+		be, ok := e.(*ast.BinaryExpr)
+		if !ok {
+			if p, ok := e.(*ast.ParenExpr); ok {
+				chain(p.X, out)
+			}
+			return
+		}
+		switch be.Op {
+		case token.LAND, token.LOR:
+			chain(be.X, out)
+			chain(be.Y, out)
+		case token.EQL, token.NEQ:
+			if v, ok := lit(be.Y); ok && v <= 255 {
+				*out = append(*out, byte(v))
+			} else if v, ok := lit(be.X); ok && v <= 255 {
+				*out = append(*out, byte(v))
+			}
+		}
+	}
+	for _, d := range dirs {
+		for _, f := range parseDir(filepath.Join(repo, d)) {
+			ast.Inspect(f, func(n ast.Node) bool {
+				switch x := n.(type) {
+				case *ast.BasicLit:
+					if x.Kind == token.INT {
+						if v, err := strconv.ParseUint(strings.ReplaceAll(x.Value, "_", ""), 0, 64); err == nil && !seenI[v] && len(ints) < 4000 {
+							seenI[v] = true
+							ints = append(ints, v)
+							if v > 255 && v < 1<<32 { // multi-octet constants, big-endian, in each width that holds them
+								for w := 2; w <= 4; w++ {
+									if v < 1<<(8*uint(w)) {
+										b := make([]byte, w)
+										for i := 0; i < w; i++ {
+											b[w-1-i] = byte(v >> (8 * uint(i)))
+										}
+										addSeq(b)
+									}
+								}
+							}
+						}
+					}
+					if x.Kind == token.STRING {
+						if s, err := strconv.Unquote(x.Value); err == nil && len(s) >= 1 && len(s) <= 40 && !seenT[s] && len(strs) < 3000 {
+							seenT[s] = true
+							strs = append(strs, s)
+							if len(s)%2 == 0 {
+								if b, err := hex.DecodeString(s); err == nil {
+									addSeq(b)
+								}
+							}
+						}
+					}
+				case *ast.BinaryExpr:
+					if x.Op == token.LAND || x.Op == token.LOR {
+						var b []byte
+						chain(x, &b)
+						addSeq(b)
+					}
+				case *ast.CompositeLit:
+					if len(x.Elts) < 2 || len(x.Elts) > 16 {
+						return true
+					}
+					var b []byte
+					for _, e := range x.Elts {
+						v, ok := lit(e)
+						if !ok || v > 255 {
+							return true
+						}
+						b = append(b, byte(v))
+					}
+					addSeq(b)
+				}
+				return true
+			})
+		}
+	}
+	sort.Slice(ints, func(i, j int) bool { return ints[i] < ints[j] })
+	sort.Slice(seqs, func(i, j int) bool { return string(seqs[i]) < string(seqs[j]) })
+	sort.Strings(strs)
+	return
+}
+
 func main() {
 	if len(os.Args) < 2 {
 		fmt.Fprintln(os.Stderr, "usage: vgen <repo>")
@@ -110,6 +230,30 @@ func main() {
 	b.WriteString("}\n\nvar MsgTypeConsts = map[string]uint8{\n")
 	for _, n := range mtConsts {
 		fmt.Fprintf(&b, "\t%q: uint8(nas.%s),\n", n, n)
+	}
+	b.WriteString("}\n")
+	ints, seqs, strs := mineLiterals(repo, []string{".", "nasType", "nasMessage", "nasConvert", "security", "uePolicyContainer"})
+	b.WriteString("\n// literals mined from the sources of the tree under test (fuzzing dictionary)\nvar DictInts = []uint64{")
+	for i, v := range ints {
+		if i%12 == 0 {
+			b.WriteString("\n\t")
+		}
+		fmt.Fprintf(&b, "%d, ", v)
+	}
+	b.WriteString("\n}\n\nvar DictBytes = [][]byte{\n")
+	for _, s := range seqs {
+		b.WriteString("\t{")
+		for i, x := range s {
+			if i > 0 {
+				b.WriteString(", ")
+			}
+			fmt.Fprintf(&b, "%#02x", x)
+		}
+		b.WriteString("},\n")
+	}
+	b.WriteString("}\n\nvar DictStrings = []string{\n")
+	for _, s := range strs {
+		fmt.Fprintf(&b, "\t%q,\n", s)
 	}
 	b.WriteString("}\n")
 	fmt.Print(b.String())
